@@ -14,6 +14,17 @@ concatenation. Every object handed in as `weights` is snapshotted (values,
 coords, attrs) before the call and compared after it and again at the end of
 the chain — the only evidence for the non-mutation clause (partial: aliasing
 inside numpy/xarray/deepcopy is not modelled).
+In-place learning: piece kind dict_ndl(inplace=True); handed a dict it must
+return that very object (`w2 is w`), the chain must still equal the single
+pass, and every object handed in to an EARLIER or LATER non-in-place call must
+stay as it was (an earlier shallow copy shows here).  Events contain repeated
+cues/outcomes (dup in {0, 0.4}) under the policies dedup / keep (and, rarely,
+error: the model predicts ValueError, classes compared).  Between two pieces
+the DataArray handed on is re-wrapped with probability 0.3 (Fortran copy,
+transposed view of a transposed copy, isel of a padded array, netCDF save/load;
+harness/impl.py rewrap_da) — the denoted weights, hence the expected result,
+are unchanged.  wh chains: 2..4 pieces, small and medium (20 x 19) label sets,
+repeats.  Failing chains are shrunk (events, pieces, re-wrapping, forms).
 """
 import itertools
 
@@ -37,7 +48,158 @@ KINDS = [
     {'learner': 'dict_ndl', 'make_data_array': True},
     {'learner': 'ndl', 'method': 'threading'},
     {'learner': 'ndl', 'method': 'openmp'},
+    # in-place learning requested: the dict handed in is the dict trained and returned
+    {'learner': 'dict_ndl', 'inplace': True},
 ]
+REWRAPS = ['f', 'transposed', 'slice', 'netcdf']
+
+
+def _returns_dict(kind):
+    return kind['learner'] == 'dict_ndl' and not kind.get('make_data_array')
+
+
+def kind_name(pc):
+    return (pc['learner'] + ('+da' if pc.get('make_data_array') else '') + ('+inplace' if pc.get('inplace') else '') +
+            (':' + pc['method'] if 'method' in pc else ''))
+
+
+def make_chain(r, es, cut, p, policy):
+    """one chain task: a learner kind, configuration and events form per piece; from the second piece on
+    possibly a re-wrapping of the DataArray handed in (drawn only where a DataArray is handed in)"""
+    pieces = []
+    for j, (a, b) in enumerate(cut):
+        prev = pieces[-1] if pieces else None
+        if prev is not None and _returns_dict(prev) and r.random() < 0.3:
+            kind = dict(KINDS[4])      # in-place on the dict the previous call returned
+        else:
+            # (as the first call, in-place has nothing to learn in; handed a DataArray it is a rare extra)
+            kind = dict(r.choice(KINDS[:4] if prev is None or r.random() < 0.6 else KINDS))
+        kind.update(events=es[a:b], n_jobs=r.choice([1, 2, 3]), per_job=r.choice([1, 2, 10]),
+                    per_file=r.choice([2, 10000000]))
+        # the events argument in any of its documented forms (es is file-normalised, so the
+        # in-memory forms denote the same events as the file)
+        kind['form'] = r.choice(['path', 'path', 'pathobj', 'generator'] if kind['learner'] == 'ndl'
+                                else ['path', 'path', 'list', 'generator'])
+        hands_da = prev is not None and (kind['learner'] == 'ndl' or not _returns_dict(prev))
+        if hands_da and r.random() < 0.3:
+            kind['rewrap'] = r.choice(REWRAPS)
+        pieces.append(kind)
+    return dict(p, op='chain', pieces=pieces, policy=policy)
+
+
+def model_req(t, es):
+    return dict(op='dict_ndl', events=es, alpha=t['alpha'], beta1=t['beta1'], beta2=t['beta2'],
+                **{'lambda': t['lambda']}, policy=t['policy'])
+
+
+def chain_problem(t, es, impl, model):
+    """the property predicate on one chain: None, or what is wrong"""
+    prob = L.compare(impl, model)
+    if prob is None and 'err' not in impl:
+        if not all(impl['inputs_unmodified']):
+            prob = 'weights argument of call %d was modified by that call' % impl['inputs_unmodified'].index(False)
+        elif not all(impl['inputs_unmodified_at_end']):
+            prob = 'an object handed in earlier as weights was modified by a later call (aliasing)'
+        elif not all(same for _, same in impl['inplace_same_object']):
+            prob = ('dict_ndl(inplace=True) call %d did not return the dict it was given (in-place learning was '
+                    'requested)' % [k for k, same in impl['inplace_same_object'] if not same][0])
+        elif not all(impl['rewrap_kept']):
+            prob = 'HARNESS: re-wrapping %r changed the denoted weights (xarray/netCDF, not pyndl)' % impl['rewrapped']
+        elif impl['rewrapped'] != [[k, pc['rewrap']] for k, pc in enumerate(t['pieces']) if pc.get('rewrap')]:
+            prob = 'HARNESS: re-wrapping drawn for a piece that is not handed a DataArray: %r' % impl['rewrapped']
+        elif impl['is_data_array']:
+            names_o = {o for _, os_ in es for o in os_}
+            names_c = {c for cs, _ in es for c in cs}
+            if set(impl['outcomes']) != names_o or set(impl['cues']) != names_c:
+                prob = 'labels of the chained result %r / %r differ from the names in the events' % (
+                    sorted(impl['outcomes']), sorted(impl['cues']))
+        lo = impl.get('leftovers')
+        if prob is None and lo and (lo['systmp'] or lo['giventmp']):
+            prob = 'temporary entries left behind: %r' % lo
+    return prob
+
+
+def shrink_chain(pool, driver, t, budget=50):
+    """greedy: drop a piece (two stay), drop an event of a piece (pieces stay non-empty), take away a piece's
+    extras (rewrap, form, configuration), drop a cue / an outcome, while the predicate still fails"""
+    steps = 0
+
+    def fails(c):
+        nonlocal steps
+        steps += 1
+        es = [e for pc in c['pieces'] for e in pc['events']]
+        impl = pool.map([c])[0]
+        model = driver.ask([model_req(c, es)])[0]
+        return chain_problem(c, es, impl, model) is not None
+
+    cur = t
+    changed = True
+    while changed and steps < budget:
+        changed = False
+        cands = []
+        for k, pc in enumerate(cur['pieces']):
+            for j in range(len(pc['events'])):
+                if len(pc['events']) > 1:
+                    cands.append((k, dict(pc, events=pc['events'][:j] + pc['events'][j + 1:])))
+            if len(cur['pieces']) > 2:
+                cands.insert(0, (k, None))
+            for key, v in (('rewrap', None), ('form', 'path'), ('n_jobs', 1), ('per_job', 10), ('per_file', 10000000)):
+                if pc.get(key) not in (None, v):
+                    cands.append((k, {kk: vv for kk, vv in dict(pc, **{key: v}).items() if vv is not None}))
+        for k, pc in enumerate(cur['pieces']):
+            for j, (cs, os_) in enumerate(pc['events']):
+                for side, lst in ((0, cs), (1, os_)):
+                    for x in range(len(lst)):
+                        if len(lst) > 1:
+                            ev = [list(cs), list(os_)]
+                            ev[side] = lst[:x] + lst[x + 1:]
+                            cands.append((k, dict(pc, events=pc['events'][:j] + [ev] + pc['events'][j + 1:])))
+        for k, pc in cands:
+            if steps >= budget:
+                break
+            pieces = cur['pieces'][:k] + ([pc] if pc is not None else []) + cur['pieces'][k + 1:]
+            c = dict(cur, pieces=pieces)
+            if fails(c):
+                cur, changed = c, True
+                break
+    return cur, steps
+
+
+def chain_snippet(t):
+    """replay of a chain against the public API"""
+    lines = ["import gzip, os, tempfile, xarray as xr, numpy as np", "from pyndl import ndl",
+             "from fractions import Fraction as F", "d = tempfile.mkdtemp(); w = None",
+             "def write(k, events):",
+             "    p = os.path.join(d, 'events_%d.tab.gz' % k)",
+             "    with gzip.open(p, 'wt', encoding='utf-8') as f:",
+             "        f.write('cues\\toutcomes\\n')",
+             "        for c, o in events: f.write('_'.join(c) + '\\t' + '_'.join(o) + '\\n')",
+             "    return p",
+             "par = (float(F(%r)), (float(F(%r)), float(F(%r))), float(F(%r)))" % (t['alpha'], t['beta1'], t['beta2'], t['lambda']),
+             "rd = %r" % {'error': None, 'dedup': True, 'keep': False}[t['policy']]]
+    for k, pc in enumerate(t['pieces']):
+        lines.append("p = write(%d, %r)" % (k, pc['events']))
+        if pc.get('rewrap'):
+            lines.append("# harness/impl.py rewrap_da(w, %r): same labelled values, other memory layout" % pc['rewrap'])
+            lines.append({'f': "w = xr.DataArray(np.asfortranarray(w.values), w.coords, w.dims, attrs=w.attrs)",
+                          'transposed': "w = xr.DataArray(np.ascontiguousarray(w.values.T), dims=('cues', 'outcomes'), "
+                                        "coords={'cues': w.cues.values, 'outcomes': w.outcomes.values}, attrs=w.attrs).T",
+                          'slice': "w = w.pad(outcomes=(1, 1), cues=(2, 1), constant_values=7.25).isel("
+                                   "outcomes=slice(1, -1), cues=slice(2, -1))",
+                          'netcdf': "w.to_netcdf(os.path.join(d, 'w.nc')); w = xr.open_dataarray(os.path.join(d, 'w.nc')).load()"}
+                         [pc['rewrap']])
+        if pc['learner'] == 'dict_ndl':
+            lines.append("w_in = w; w = ndl.dict_ndl(p, *par, weights=w, remove_duplicates=rd, make_data_array=%r, inplace=%r)"
+                         "   # events form in the run: %s" % (bool(pc.get('make_data_array')), bool(pc.get('inplace')), pc.get('form')))
+            if pc.get('inplace'):
+                lines.append("print('same object:', w is w_in)")
+        else:
+            lines.append("if w is not None and not isinstance(w, xr.DataArray): w = ndl.data_array(w)")
+            lines.append("w = ndl.ndl(p, *par, weights=w, method=%r, n_jobs=%d, n_outcomes_per_job=%d, "
+                         "events_per_temporary_file=%d, remove_duplicates=rd)" % (
+                             pc['method'], pc.get('n_jobs', 2), pc.get('per_job', 10), pc.get('per_file', 10000000)))
+    lines.append("print(w)")
+    return '\n'.join(lines)
 
 
 def run(rep, pool, driver, tier):
@@ -46,106 +208,194 @@ def run(rep, pool, driver, tier):
     tasks, metas = [], []
     for i in range(10 if quick else 80):
         n = r.randint(3, 7)
-        es = gen.file_norm(gen.events(r, n, dup=0.0, late=(i % 2 == 0)))
+        # repeated cues / outcomes inside an event: every learner applies the duplicate policy on its own
+        # path (set() in dict_ndl, set() on ids in write_events), and the chain must apply it like one pass
+        es = gen.file_norm(gen.events(r, n, dup=r.choice([0.0, 0.4]), late=(i % 2 == 0)))
         p = gen.params(r)
         for k in (2, 3, 4):
             if k > n:
                 continue
             sp = list(splits(n, k))
             for cut in (r.sample(sp, min(len(sp), 3)) if quick else sp):
-                pieces = []
-                for (a, b) in cut:
-                    kind = dict(r.choice(KINDS))
-                    kind.update(events=es[a:b], n_jobs=r.choice([1, 2, 3]), per_job=r.choice([1, 2, 10]),
-                                per_file=r.choice([2, 10000000]))
-                    # the events argument in any of its documented forms (es is file-normalised, so the
-                    # in-memory forms denote the same events as the file)
-                    kind['form'] = r.choice(['path', 'path', 'pathobj', 'generator'] if kind['learner'] == 'ndl'
-                                            else ['path', 'path', 'list', 'generator'])
-                    pieces.append(kind)
-                tasks.append(dict(p, op='chain', pieces=pieces, policy='error'))
+                if gen.has_dup(es):
+                    # 'error': the model predicts ValueError for the whole chain (kept rare)
+                    policy = r.choice(['dedup', 'keep']) if r.random() < 0.8 else 'error'
+                else:
+                    policy = r.choice(['error', 'error', 'dedup', 'keep'])
+                tasks.append(make_chain(r, es, cut, p, policy))
                 metas.append((es, cut))
     impls = pool.map(tasks)
-    models = driver.ask([dict(op='dict_ndl', events=es, alpha=t['alpha'], beta1=t['beta1'], beta2=t['beta2'],
-                              **{'lambda': t['lambda']}, policy='error') for t, (es, _) in zip(tasks, metas)])
+    models = driver.ask([model_req(t, es) for t, (es, _) in zip(tasks, metas)])
+    failures = []
     for t, (es, cut), impl, model in zip(tasks, metas, impls, models):
-        kinds = [pc['learner'] + ('+da' if pc.get('make_data_array') else '') + (':' + pc['method'] if 'method' in pc else '')
-                 for pc in t['pieces']]
+        kinds = [kind_name(pc) for pc in t['pieces']]
         for pc in t['pieces']:
             rep.count('form:%s/%s' % (pc['learner'], pc.get('form', 'path')))
         first_names = {x for c, o in es[:cut[0][1]] for x in c + o}
         later_new = any(x not in first_names for c, o in es[cut[0][1]:] for x in c + o)
-        rep.case({'events': es, 'cut': cut, 'kinds': kinds}, nontrivial=True, stream='chain_k%d' % len(cut))
+        rep.case({'events': es, 'cut': cut, 'kinds': kinds, 'policy': t['policy'],
+                  'rewrap': [pc.get('rewrap') for pc in t['pieces']]}, nontrivial=True, stream='chain_k%d' % len(cut))
         rep.count('chain_len:%d' % len(cut))
         rep.count('later_piece_has_new_labels' if later_new else 'no_new_labels')
+        rep.count('events_with_repeats:%s' % ('yes' if gen.has_dup(es) else 'no'))
+        rep.count('policy:%s%s' % (t['policy'], '/repeats' if gen.has_dup(es) else ''))
+        rep.count('outcome:' + (model.get('err') or 'Returned'))
         for k in kinds:
             rep.count('piece:' + k)
-        prob = L.compare(impl, model)
-        if prob is None and 'err' not in impl:
-            if not all(impl['inputs_unmodified']):
-                prob = 'weights argument of call %d was modified by that call' % impl['inputs_unmodified'].index(False)
-            elif not all(impl['inputs_unmodified_at_end']):
-                prob = 'an object handed in earlier as weights was modified by a later call (aliasing)'
-            elif impl['is_data_array']:
-                names_o = {o for _, os_ in es for o in os_}
-                names_c = {c for cs, _ in es for c in cs}
-                if set(impl['outcomes']) != names_o or set(impl['cues']) != names_c:
-                    prob = 'labels of the chained result %r / %r differ from the names in the events' % (
-                        sorted(impl['outcomes']), sorted(impl['cues']))
-            lo = impl.get('leftovers')
-            if prob is None and lo and (lo['systmp'] or lo['giventmp']):
-                prob = 'temporary entries left behind: %r' % lo
+        for j, pc in enumerate(t['pieces']):
+            if pc.get('inplace'):
+                prev = t['pieces'][j - 1] if j else None
+                rep.count('inplace_input:%s' % ('none' if prev is None else 'dict' if _returns_dict(prev) else 'data_array'))
+                if j + 1 < len(t['pieces']):
+                    rep.count('inplace_followed_by:' + kind_name(t['pieces'][j + 1]))
+            rep.count('rewrap:%s' % pc.get('rewrap', 'none' if j else 'first_piece'))
+            if pc.get('rewrap'):
+                rep.count('rewrap_into:' + kind_name(pc))
+        if 'err' not in impl:
+            rep.count('inplace_same_object_observed', len(impl['inplace_same_object']))
+        prob = chain_problem(t, es, impl, model)
         if prob:
-            rep.violation({'what': prob, 'input': t, 'observed': impl.get('cells', impl.get('err')),
-                           'expected': model.get('cells'), 'cut': cut,
-                           'theorem_or_stream': 'C03 chain_eq_single: chain %s vs single pass of the Lean model' % ' -> '.join(kinds)})
-        else:
-            rep.sample({'kinds': kinds, 'cut': cut, 'events': es, 'final_cells': impl['cells'][:4]})
+            failures.append((t, es, cut, prob, impl, model))
+        elif 'err' not in impl:
+            rep.sample({'kinds': kinds, 'cut': cut, 'events': es, 'policy': t['policy'], 'final_cells': impl['cells'][:4]})
+    for t, es, cut, prob, impl, model in failures[:2]:
+        small, steps = shrink_chain(pool, driver, t)
+        es2 = [e for pc in small['pieces'] for e in pc['events']]
+        impl2 = pool.map([small])[0]
+        model2 = driver.ask([model_req(small, es2)])[0]
+        prob2 = chain_problem(small, es2, impl2, model2)
+        if prob2 is None:
+            small, es2, impl2, model2, prob2 = t, es, impl, model, prob
+        kinds = [kind_name(pc) for pc in small['pieces']]
+        rep.violation({'what': prob2, 'input': small, 'observed': impl2.get('cells', impl2.get('err')),
+                       'expected': model2.get('cells', model2.get('err')), 'cut': cut,
+                       'python': chain_snippet(small), 'shrunk_from_events': len(es), 'shrink_steps': steps,
+                       'theorem_or_stream': 'C03 chain_eq_single: chain %s vs single pass of the Lean model' % ' -> '.join(kinds)})
+    for t, es, cut, prob, impl, model in failures[2:]:
+        kinds = [kind_name(pc) for pc in t['pieces']]
+        rep.violation({'what': prob, 'input': t, 'observed': impl.get('cells', impl.get('err')),
+                       'expected': model.get('cells', model.get('err')), 'cut': cut,
+                       'theorem_or_stream': 'C03 chain_eq_single: chain %s vs single pass of the Lean model' % ' -> '.join(kinds)})
+    rep.extra['failures_total'] = len(failures)
 
     _wh_chains(rep, pool, driver, r, quick)
 
 
 WH_CUES = ['a', 'b', 'c', 'd', 'ä', 'e', 'f', 'g', 'h']
 WH_OUTS = ['x', 'y', 'z', 'ö', 'u', 'v', 'w']
+# medium-size label sets: more than 8 labels per side, so that label order, set order and order of
+# first occurrence stop coinciding, and a later piece can bring in a dozen new labels at once
+WH_CUES_M = WH_CUES + ['c%d' % i for i in range(11)]
+WH_OUTS_M = WH_OUTS + ['o%d' % i for i in range(12)]
+
+
+def _shrink_wh(pool, driver, t, budget=40):
+    """greedy: drop a piece (two stay), an event of a piece (pieces stay non-empty), a cue / an outcome
+    (one of each stays), while chain and single pass of the model still disagree"""
+    steps = 0
+
+    def with_pieces(pieces):
+        return dict(t, pieces=pieces, events=[e for p in pieces for e in p])
+
+    def fails(c):
+        nonlocal steps
+        steps += 1
+        return whgen.compare(pool.map([c])[0], driver.ask([whgen.model_request(c)])[0]) is not None
+
+    cur = [[[list(c), list(o)] for c, o in p] for p in t['pieces']]
+    changed = True
+    while changed and steps < budget:
+        changed = False
+        cands = []
+        if len(cur) > 2:
+            cands += [cur[:k] + cur[k + 1:] for k in range(len(cur))]
+        for k, p in enumerate(cur):
+            if len(p) > 1:
+                cands += [cur[:k] + [p[:j] + p[j + 1:]] + cur[k + 1:] for j in range(len(p))]
+        for k, p in enumerate(cur):
+            for j, ev in enumerate(p):
+                for side in (0, 1):
+                    for x in range(len(ev[side]) if len(ev[side]) > 1 else 0):
+                        ne = [list(ev[0]), list(ev[1])]
+                        ne[side] = ev[side][:x] + ev[side][x + 1:]
+                        cands.append(cur[:k] + [p[:j] + [ne] + p[j + 1:]] + cur[k + 1:])
+        for c in cands:
+            if steps >= budget:
+                break
+            if fails(with_pieces(c)):
+                cur, changed = c, True
+                break
+    return with_pieces(cur), steps
 
 
 def _wh_chains(rep, pool, driver, r, quick):
     """chains of wh.wh calls (weights= handed on) for the three vector flavours; the first piece uses
     few names, later pieces bring in several new cues AND outcomes at once (their hash order and their
-    order of first occurrence differ); every split position"""
+    order of first occurrence differ); every split position; 2..4 pieces; small and medium label sets;
+    events with repeated cues/outcomes under the policies that accept them"""
     tasks = []
     for i in range(6 if quick else 60):
         for flavour in ('r2r', 'b2r', 'r2b'):
+            medium = r.random() < 0.35
+            all_cues, all_outs = (WH_CUES_M, WH_OUTS_M) if medium else (WH_CUES, WH_OUTS)
             n = r.randint(3, 6)
             es = []
             for j in range(n):
-                cues = WH_CUES[:2] if j == 0 else WH_CUES
-                outs = WH_OUTS[:2] if j == 0 else WH_OUTS
-                cs = r.sample(cues, r.randint(1, min(4, len(cues))))
-                os_ = r.sample(outs, r.randint(1, min(3, len(outs))))
+                cues = all_cues[:2] if j == 0 else all_cues
+                outs = all_outs[:2] if j == 0 else all_outs
+                cs = r.sample(cues, r.randint(1, min(8 if medium else 4, len(cues))))
+                os_ = r.sample(outs, r.randint(1, min(6 if medium else 3, len(outs))))
                 if j == 1:
                     # the second event alone introduces >= 3 new names on each side, in shuffled order
-                    cs = r.sample(WH_CUES[2:], r.randint(3, 5)) + r.sample(WH_CUES[:2], r.randint(0, 1))
-                    os_ = r.sample(WH_OUTS[2:], 3) + r.sample(WH_OUTS[:2], r.randint(0, 1))
+                    cs = r.sample(all_cues[2:], r.randint(7, 12) if medium else r.randint(3, 5)) + r.sample(all_cues[:2], r.randint(0, 1))
+                    os_ = r.sample(all_outs[2:], r.randint(6, 11) if medium else 3) + r.sample(all_outs[:2], r.randint(0, 1))
+                elif j >= 1 and r.random() < 0.2:
+                    # a repeated cue and/or outcome inside the event
+                    if r.random() < 0.7:
+                        cs = cs + [r.choice(cs)]
+                    else:
+                        os_ = os_ + [r.choice(os_)]
+                    r.shuffle(cs)
                 es.append([cs, os_])
             base = {'op': 'wh', 'flavour': flavour, 'events': es, 'eta': r.choice(whgen.ETAS),
-                    'policy': r.choice(['error', 'dedup', 'keep']), 'n_jobs': r.choice([1, 2, 3]),
+                    'policy': r.choice(['dedup', 'keep'] if gen.has_dup(es) else ['error', 'dedup', 'keep']),
+                    'n_jobs': r.choice([1, 2, 3]),
                     'per_job': r.choice([1, 2, 3, 10]), 'per_file': r.choice([2, 10000000])}
             if flavour in ('r2r', 'r2b'):
-                base['cue_vectors'] = whgen.table(r, WH_CUES, r.choice([2, 3, 5, 9]), prefix='cd')
+                base['cue_vectors'] = whgen.table(r, all_cues, r.choice([2, 3, 5, 9]), prefix='cd')
             if flavour in ('r2r', 'b2r'):
-                base['outcome_vectors'] = whgen.table(r, WH_OUTS, r.choice([2, 3, 4, 7]), prefix='od')
-            for k in (2, 3):
+                base['outcome_vectors'] = whgen.table(r, all_outs, r.choice([2, 3, 4, 7]), prefix='od')
+            for k in (2, 3, 4):
+                if k > n:
+                    continue
                 sp = list(splits(n, k))
-                for cut in (r.sample(sp, min(len(sp), 2)) if quick else sp):
-                    tasks.append((dict(base, pieces=[es[a:b] for a, b in cut]), cut))
-    impls = pool.map([t for t, _ in tasks])
-    models = driver.ask([whgen.model_request(t) for t, _ in tasks])
-    for (t, cut), impl, model in zip(tasks, impls, models):
+                for cut in (r.sample(sp, min(len(sp), 2 if k < 4 else 1)) if quick else sp):
+                    tasks.append((dict(base, pieces=[es[a:b] for a, b in cut]), cut, medium))
+    impls = pool.map([t for t, _, _ in tasks])
+    models = driver.ask([whgen.model_request(t) for t, _, _ in tasks])
+    n_shrunk = 0
+    for (t, cut, medium), impl, model in zip(tasks, impls, models):
         rep.case({k: v for k, v in t.items() if k != 'op'}, nontrivial=True, stream='wh_chain')
         rep.count('wh_chain:' + t['flavour'])
         rep.count('chain_len:%d' % len(cut))
+        rep.count('wh_chain_len:%d' % len(cut))
+        rep.count('wh_labels:%s' % ('medium' if medium else 'small'))
+        rep.count('wh_policy:%s%s' % (t['policy'], '/repeats' if gen.has_dup(t['events']) else ''))
+        seen = {x for c, o in t['pieces'][0] for x in c + o}
+        rep.count('wh_new_labels_in_later_pieces:%s' % (
+            lambda m: '0' if m == 0 else '1-4' if m <= 4 else '5-10' if m <= 10 else '11+')(
+                len({x for pc in t['pieces'][1:] for c, o in pc for x in c + o} - seen)))
+        if 'err' not in model:
+            rep.count('wh_exact_domain' if model.get('bits', 9999) <= 53 else 'wh_tolerance_domain')
         d = whgen.compare(impl, model)
+        if d is not None and n_shrunk < 2:
+            n_shrunk += 1
+            small, steps = _shrink_wh(pool, driver, t)
+            impl2 = pool.map([small])[0]
+            model2 = driver.ask([whgen.model_request(small)])[0]
+            d2 = whgen.compare(impl2, model2)
+            if d2 is not None:
+                t, impl, model, d = dict(small, shrink_steps=steps), impl2, model2, d2
         if d is not None:
             rep.violation({'what': d, 'input': t, 'cut': cut, 'observed': impl.get('cells', impl.get('err')),
                            'expected': model.get('cells', model.get('err')),
